@@ -103,6 +103,31 @@ theorem C14_construction_paths (V : SsaBuild.Versions) (c : SsaBuild.PCfg) (idom
   exact C14_local_implies_paths c' vars _ hn
     (C14_construction V c idom df vars hroot hidom hlt hdf hvars fuel Pf hP c' hb) b π hπ pre s post hsplit hphi r hr
 
+/-- all variables written by some block -/
+def allWritten (c : SsaBuild.PCfg) : List Var := ((List.range c.blocks.length).flatMap (SsaBuild.written c)).eraseDups
+
+/-- **the phi work list terminates** (also a C01 fact): `n + 2 * n * |written variables|` iterations always empty it -/
+theorem C14_worklist_terminates (c : SsaBuild.PCfg) (df : Nat → List Nat) (hdf : ∀ x j, j ∈ df x → j < c.blocks.length) :
+    ∃ Pf, SsaBuild.insertPhis df (SsaBuild.written c) (c.blocks.length + 2 * (c.blocks.length * (allWritten c).length))
+      (List.range c.blocks.length) (fun _ => []) = some Pf := by
+  apply SsaBuild.insertPhis_terminates c.blocks.length (allWritten c) df (SsaBuild.written c) hdf ?_ _ _ _
+    ⟨fun _ _ => rfl, fun _ => List.nodup_nil, fun j v h => by cases h⟩
+  · simp only [List.length_range]
+    have : 2 * (c.blocks.length * (allWritten c).length - SsaBuild.sizeP c.blocks.length (fun _ => []))
+        ≤ 2 * (c.blocks.length * (allWritten c).length) := by omega
+    omega
+  · intro x v hv
+    unfold allWritten
+    rw [List.mem_eraseDups, List.mem_flatMap]
+    by_cases hx : x < c.blocks.length
+    · exact ⟨x, List.mem_range.mpr hx, hv⟩
+    · exfalso
+      unfold SsaBuild.written SsaBuild.PCfg.block at hv
+      rw [List.getD_eq_getElem?_getD, List.getElem?_eq_none (by omega)] at hv
+      simp at hv
+      obtain ⟨a, ha, _⟩ := hv
+      cases ha
+
 /-- non-vacuity: `x = 1; while (..) { x = x + 1 }; use x` in SSA form passes the check -/
 def exCfg : Cfg :=
   { params := [],
